@@ -197,11 +197,15 @@ def encode_ods(sheets, feat):
     return "".join(parts)
 
 
-def write_ods(path, content_xml, with_content=True):
+def write_ods(path, content_xml, with_content=True, encoding=None):
+    """encoding: store content.xml in that encoding (declared in its XML declaration) instead of UTF-8"""
     import zipfile
+    data = content_xml
+    if encoding is not None:
+        data = content_xml.replace('encoding="UTF-8"', 'encoding="%s"' % encoding, 1).encode(encoding)
     with zipfile.ZipFile(path, "w", zipfile.ZIP_DEFLATED) as z:
         z.writestr("mimetype", "application/vnd.oasis.opendocument.spreadsheet")
-        if with_content: z.writestr("content.xml", content_xml)
+        if with_content: z.writestr("content.xml", data)
 
 
 PLAIN_FEATURES = ["col_runs", "dde_link"]
@@ -242,6 +246,37 @@ def unit_ods_audit():
             res.append(sweep("C15/audit/plain cells, column runs, 1-3 sheets", cases(PLAIN_FEATURES, True), check, "audit",
                              "tables of 0-6 rows x 0-8 cells over a text alphabet with XML-special and non-ASCII characters, adjacent equal cells, written by an independent ODF encoder with column runs on/off, with / without the cached table of a DDE link (a table:table that is no sheet), 1-3 sheets, every sheet requested",
                              describe=desc, function="rowio.ods_rows", unit="C15.audit", props=["C15"]))
+            # "in any encoding the format allows": the same documents with content.xml stored as ISO-8859-1 / UTF-16 (declared in the XML declaration)
+            def enc_cases():
+                for enc, t in (("ISO-8859-1", [["\u00e4b", "x"], ["<&>", "\u00fc\u00df"]]), ("UTF-16", [["\u00e4\u20ac", "x"], ["y", "\u03b1\u03c9"]]), ("UTF-8", [["\u00e4\u20ac", ""]]), ("US-ASCII", [["plain", "a b"]])):
+                    for k in (1, 2): yield (enc, [t, [["second"]]], k)
+            def enc_check(c):
+                enc, sheets, k = c
+                n[0] += 1; path = os.path.join(tmp, "e%d.ods" % n[0]); write_ods(path, encode_ods(sheets, {"col_runs"}), encoding=enc)
+                try: got = list(rowio.ods_rows(path, k))
+                except Exception as e: return {"expected": sheets[k - 1], "observed": repr(e)}
+                finally: os.unlink(path)
+                return None if got == sheets[k - 1] else {"expected": sheets[k - 1], "observed": got}
+            res.append(sweep("C15/audit/content.xml stored in ISO-8859-1, UTF-16, UTF-8 and US-ASCII", enc_cases(), enc_check, "audit", "4 encodings x 2 sheets, non-ASCII cell texts where the encoding has them",
+                             describe=lambda c: {"encoding": c[0], "sheets": c[1], "requested_sheet": c[2]}, function="rowio.ods_rows", unit="C15.audit", props=["C15"]))
+            # the file is read anew on every call: a path whose content was replaced yields the new content (nothing is remembered per path)
+            def replaced_check(_):
+                path = os.path.join(tmp, "same.ods")
+                seq = [[[["a", "b"], ["c", ""]]], [[["x"]], [["second", "sheet"]]], None, [[["again"]]]]
+                for i, sheets in enumerate(seq):
+                    if sheets is None: open(path, "wb").write(b"not a zip archive")
+                    else: write_ods(path, encode_ods(sheets, set()))
+                    try: got = list(rowio.ods_rows(path, 1)); err = None
+                    except errors.DataFormatError as e: got = None; err = e
+                    except Exception as e: return {"expected": "rows or DataFormatError", "observed": repr(e)}
+                    if sheets is None:
+                        if err is None: return {"expected": "DataFormatError after the file was replaced by a non-zip file", "observed": got}
+                    elif got != sheets[0]: return {"expected": "content %d of the same path: %r" % (i + 1, sheets[0]), "observed": got if err is None else repr(err)}
+                    if sheets is not None and len(sheets) == 1:
+                        try: list(rowio.ods_rows(path, 2)); return {"expected": "DataFormatError for sheet 2 of a one-sheet document", "observed": "rows returned"}
+                        except errors.DataFormatError: pass
+                os.unlink(path); return None
+            res.append(sweep("C15/audit/the same path read again after its content was replaced", [0], replaced_check, "audit", "one path rewritten 4 times (2 documents, a non-zip file, a third document)", function="rowio.ods_rows", unit="C15.audit", props=["C15", "C08"]))
             # rich encodings (recorded finding K-4): counted, reported once
             bad = []
             for c in cases(RICH_FEATURES, False):
